@@ -537,6 +537,7 @@ func checkFoPair(c *Ctx, p foPair) {
 		r.Undecided("C04.b", p.label, "tokenize", p.label, err.Error())
 		return
 	}
+	checkTopLevelShape(r, p.label, toks)
 	fset := token.NewFileSet()
 	gf, err := parser.ParseFile(fset, p.gen, gsrc, 0)
 	if err != nil {
@@ -749,6 +750,7 @@ func checkC04(c *Ctx) {
 	r.Rule("C04.b", "ordered declaration tables agree for every pair", 30)
 	r.Rule("C04.c", "per-definition literal sequences and construct counts agree", 400)
 	r.Rule("C04.d", "generated files are gofmt-idempotent", 30)
+	r.Rule("C04.g", "every source and interface file fc reads is a sequence of well-formed top-level items (no stray text, no stray comment terminator, package_info bodies are declaration lines)", 35)
 	r.Rule("C04.e", "samples/README.md and pkg/pkg_all.foi are what their recipes produce from the checked-in files", 2)
 	r.Rule("C04.imp", "the compiler's own import insertion has the closed form the expected declaration tables mirror", 7)
 	r.Rule("C04.lib", "the file wrappers the reproduction relies on are verbatim", 2)
@@ -823,6 +825,7 @@ func checkC04(c *Ctx) {
 		checkFoPair(c, p)
 	}
 	r.Unit("source_generated_pairs", len(pairs))
+	checkFoiShapes(c)
 
 	// (e) README
 	if len(listed) > 0 {
